@@ -15,6 +15,8 @@ import (
 	"time"
 
 	"seehuhn.de/go/pdf"
+	"seehuhn.de/go/pdf/font/charcode"
+	"seehuhn.de/go/pdf/font/cmap"
 	"seehuhn.de/go/pdf/page"
 	"seehuhn.de/go/pdf/pagetree"
 	"seehuhn.de/go/pdf/reader"
@@ -40,6 +42,10 @@ import (
 //	growth widgets n      page.Decode of n widgets below a chain of n field ancestors
 //	growth clip n         reader.Reader over "W n q" x n (retained heap)
 //	growth qdepth n       reader.Reader over "q" x n (retained heap, absolute budget)
+//	growth newcodec n     page walk (font extraction, cmap.File.Codec) of a Type 0 font whose embedded
+//	                      CMap has n pairwise disjoint 4-byte code space ranges (grid shape)
+//	growth codespacerange k  Codec.CodeSpaceRange() of the codec extracted from such a font (1+3k ranges; k, k+1)
+//	growth equivalent n   CodeSpaceRange.Equivalent(codec.CodeSpaceRange()) for n diagonal ranges
 
 func c05eFile(objs []string) []byte {
 	var b bytes.Buffer
@@ -58,8 +64,63 @@ func c05eFile(objs []string) []byte {
 	return b.Bytes()
 }
 
+// c05eRanges: VALID sets of pairwise disjoint 4-byte code space ranges (C12 audit, findings 1-3).
+func c05eRanges(variant string, n int) charcode.CodeSpaceRange {
+	var csr charcode.CodeSpaceRange
+	grid := func(k int) {
+		csr = append(csr, charcode.Range{Low: []byte{0, 0, 0, 0}, High: []byte{0xFF, 0xFF, 0xFF, 0}})
+		for i := 0; i < k; i++ {
+			b := byte(2*i + 1)
+			csr = append(csr,
+				charcode.Range{Low: []byte{b, 0, 0, 1}, High: []byte{b, 0xFF, 0xFF, 1}},
+				charcode.Range{Low: []byte{0, b, 0, 2}, High: []byte{0xFF, b, 0xFF, 2}},
+				charcode.Range{Low: []byte{0, 0, b, 3}, High: []byte{0xFF, 0xFF, b, 3}})
+		}
+	}
+	switch variant {
+	case "codespacerange": // n = k: 1+3k ranges
+		grid(n)
+	case "newcodec": // n ranges: a grid of n/9 steps, the rest differ in the last byte only
+		k := max(n/9, 1)
+		grid(k)
+		for x := 0; len(csr) < n && x < 250; x++ {
+			b := byte(4 + x)
+			csr = append(csr, charcode.Range{Low: []byte{0, 0, 0, b}, High: []byte{0xFF, 0xFF, 0xFF, b}})
+		}
+	case "equivalent": // n single codes on the diagonal
+		for i := 0; i < n && i < 127; i++ {
+			b := byte(2*i + 1)
+			csr = append(csr, charcode.Range{Low: []byte{b, b, b, b}, High: []byte{b, b, b, b}})
+		}
+	}
+	return csr
+}
+
 func c05eInput(variant string, n int) []byte {
 	switch variant {
+	case "newcodec", "codespacerange", "equivalent":
+		csr := c05eRanges(variant, n)
+		var cm strings.Builder
+		cm.WriteString("/CIDInit /ProcSet findresource begin\n12 dict begin\nbegincmap\n/CIDSystemInfo << /Registry (Adobe) /Ordering (Identity) /Supplement 0 >> def\n/CMapName /Verif-H def\n/CMapType 1 def\n")
+		for i := 0; i < len(csr); i += 100 {
+			blk := csr[i:min(i+100, len(csr))]
+			fmt.Fprintf(&cm, "%d begincodespacerange\n", len(blk))
+			for _, r := range blk {
+				fmt.Fprintf(&cm, "<%x> <%x>\n", r.Low, r.High)
+			}
+			cm.WriteString("endcodespacerange\n")
+		}
+		fmt.Fprintf(&cm, "1 begincidrange\n<%x> <%x> 0\nendcidrange\nendcmap\nCMapName currentdict /CMap defineresource pop\nend\nend\n", csr[0].Low, csr[0].Low)
+		content := fmt.Sprintf("BT /F1 10 Tf <%x> Tj ET", csr[0].Low)
+		return c05eFile([]string{"<< /Type /Catalog /Pages 2 0 R >>", "<< /Type /Pages /Kids [3 0 R] /Count 1 >>",
+			"<< /Type /Page /Parent 2 0 R /MediaBox [0 0 100 100] /Contents 8 0 R /Resources << /Font << /F1 4 0 R >> >> >>",
+			"<< /Type /Font /Subtype /Type0 /BaseFont /Verif /Encoding 5 0 R /DescendantFonts [6 0 R] >>",
+			fmt.Sprintf("<< /Type /CMap /CMapName /Verif-H /CIDSystemInfo << /Registry (Adobe) /Ordering (Identity) /Supplement 0 >> /Length %d >>\nstream\n%s\nendstream", cm.Len(), cm.String()),
+			"<< /Type /Font /Subtype /CIDFontType2 /BaseFont /Verif /CIDSystemInfo << /Registry (Adobe) /Ordering (Identity) /Supplement 0 >> /FontDescriptor 7 0 R /DW 1000 >>",
+			"<< /Type /FontDescriptor /FontName /Verif /Flags 4 /FontBBox [0 0 1000 1000] /ItalicAngle 0 /Ascent 800 /Descent -200 /CapHeight 700 /StemV 80 /FontFile2 9 0 R >>",
+			fmt.Sprintf("<< /Length %d >>\nstream\n%s\nendstream", len(content), content),
+			// (the font program is not looked at on this path; without one a custom CMap is refused)
+			"<< /Length1 4 /Length 4 >>\nstream\n\x00\x01\x00\x00\nendstream"})
 	case "alternates":
 		objs := []string{"<< /Type /Catalog /Pages 2 0 R >>", "<< /Type /Pages /Kids [3 0 R] /Count 1 >>",
 			"<< /Type /Page /Parent 2 0 R /MediaBox [0 0 100 100] /Resources << /XObject << /Im0 4 0 R >> >> >>"}
@@ -307,7 +368,32 @@ func c05eWork(variant string, data []byte) (cpu time.Duration, heap uint64, note
 			}
 			keep = rr
 		}
-		note = truncTo(fmt.Sprint(err), 60)
+		if err == nil && (variant == "newcodec" || variant == "codespacerange" || variant == "equivalent") {
+			// the codec of the CMap the walk has extracted (for the two direct variants only the
+			// call named by the variant is timed)
+			x := pdf.NewExtractor(r)
+			var f *cmap.File
+			f, err = pdf.Decode(pdf.CursorAt(x, nil), pdf.NewReference(5, 0), cmap.Extract)
+			if err == nil && f != nil {
+				var codec *charcode.Codec
+				codec, err = f.Codec()
+				if err == nil && variant != "newcodec" {
+					if variant == "codespacerange" {
+						t0 = c05eCPU()
+					}
+					out := codec.CodeSpaceRange()
+					if variant == "equivalent" {
+						t0 = c05eCPU()
+						if !f.CodeSpaceRange.Equivalent(out) {
+							err = fmt.Errorf("the codec's range set is not equivalent to its source")
+						}
+					}
+					keep = []any{keep, out}
+				}
+				note = fmt.Sprintf("ranges=%d,err=%v", len(f.CodeSpaceRange), err)
+			}
+		}
+		note = truncTo(fmt.Sprint(note, err), 60)
 	}
 	cpu = c05eCPU() - t0
 	runtime.GC()
@@ -322,7 +408,7 @@ func c05eWork(variant string, data []byte) (cpu time.Duration, heap uint64, note
 // c05eChildGrowth is what the child prints for "growth <variant> <n>".
 func c05eChildGrowth(variant string, n int) string {
 	sizes := [2]int{n, 2 * n}
-	if variant == "alternates" {
+	if variant == "alternates" || variant == "codespacerange" {
 		sizes = [2]int{n, n + 1}
 	}
 	if variant == "qdepth" {
@@ -475,6 +561,12 @@ func c05eCases(thorough bool) []string {
 		fmt.Sprintf("growth clip %d", 1000*min(mul, 2)),
 		"growth qdepth 400000",
 	}
+	// C12 audit, findings 1-3 (valid code space range sets; not repaired, known)
+	if thorough {
+		cs = append(cs, "growth newcodec 75", "growth codespacerange 3", "growth equivalent 15")
+	} else {
+		cs = append(cs, "growth newcodec 50", "growth codespacerange 2", "growth equivalent 12")
+	}
 	if thorough {
 		cs = append(cs, "growth alternates 6")
 	} else {
@@ -519,7 +611,7 @@ func c05eJudge(desc string) (ok bool, key, detail string) {
 		return true, "", outcome
 	}
 	if v["cpu2"] > 400 && v["cpu2"] > 3*max(v["cpu1"], 1) {
-		return false, "C05-superlinear-time-" + f[1], fmt.Sprintf("%q: CPU time %d ms -> %d ms for %s (the larger input has twice the size parameter; factor %.1f > 3)", desc, v["cpu1"], v["cpu2"], sizes, float64(v["cpu2"])/float64(max(v["cpu1"], 1)))
+		return false, "C05-superlinear-time-" + f[1], fmt.Sprintf("%q: CPU time %d ms -> %d ms for %s (the larger input has %s; factor %.1f > 3)", desc, v["cpu1"], v["cpu2"], sizes, map[bool]string{true: "the size parameter plus one", false: "twice the size parameter"}[f[1] == "alternates" || f[1] == "codespacerange"], float64(v["cpu2"])/float64(max(v["cpu1"], 1)))
 	}
 	if v["heap2"] > 64 && v["heap2"] > 3*max(v["heap1"], 1) {
 		return false, "C05-superlinear-memory-" + f[1], fmt.Sprintf("%q: heap retained %d MiB -> %d MiB for %s (factor %.1f > 3)", desc, v["heap1"], v["heap2"], sizes, float64(v["heap2"])/float64(max(v["heap1"], 1)))
